@@ -215,8 +215,9 @@ def run_job(job, rec):
             p2, c2 = guarded(E, xq), guarded(E.cdf, xq)
             p3, c3 = guarded(E, xq.copy()), guarded(E.cdf, xq.copy())
             rec.count("in_place_query_updates")
-            okq = not any(isinstance(v, Raised) for v in (p1, c1, p2, c2, p3, c3)) and np.array_equal(p2, p3) and bool(np.allclose(c2, c3, rtol=0, atol=1e-9)) \
-                and not np.array_equal(np.asarray(p1), np.asarray(p2))
+            okq = not any(isinstance(v, Raised) for v in (p1, c1, p2, c2, p3, c3)) and np.array_equal(p2, p3) and bool(np.allclose(c2, c3, rtol=0, atol=1e-9))
+            if okq and not np.array_equal(np.asarray(p1), np.asarray(p3)):
+                rec.count("in_place_query_updates:values_changed")    # (a stale answer would have been visible)
             rec.check(okq, "stale-after-in-place-update", lambda: f"{name}: evaluating the same query array after modifying it in place gives {p2!r}, a fresh array gives {p3!r}", ctx)
             i_a, i_b = guarded(E.interval, 0.5), guarded(E.interval, 0.5)
             m_a, m_b = guarded(E.moments), guarded(E.moments)
@@ -252,7 +253,8 @@ def run_job(job, rec):
                           lambda: f"{name}: density at the reported mode {E.mode!r} is {float(pm)!r}, but it reaches {P.peak!r} at {P.argmax!r} ({deficit:.2e} lower)", ctx)
 
             # 4. highest-density intervals
-            for f in (float(rng.uniform(0.05, 0.3)), float(rng.uniform(0.3, 0.8)), float(rng.uniform(0.8, 0.99))):
+            # (the last fraction holds only a handful of sample points: the interval of the sample it starts from is then a tiny cluster anywhere)
+            for f in (float(rng.uniform(0.05, 0.3)), float(rng.uniform(0.3, 0.8)), float(rng.uniform(0.8, 0.99)), float(rng.uniform(0.6, 15.0) / n)):
                 iv = guarded(E.interval, f)
                 if isinstance(iv, Raised):
                     rec.violation("raised", f"{name}.interval({f}) raised {iv!r}", ctx)
@@ -264,7 +266,14 @@ def run_job(job, rec):
                 ictx = {**ctx, "fraction": f, "interval": [a, b]}
                 track(name + ":interval_mass", (cb - ca) - f)
                 track(name + ":interval_density", abs(pa - pb) / P.peak)
-                rec.check(a < b and abs((cb - ca) - f) <= 1e-4, "interval-mass",
+                ok_mass = a < b and abs((cb - ca) - f) <= 1e-4
+                if not ok_mass and bracket_only and a < b and abs((cb - ca) - f) <= 1e-2:
+                    # the interval search is centred on and weighted by the reported mode; where that mode is the recorded known finding
+                    # (best point of its bracket, peak outside) the search stalls next to it: same mechanism, same finding
+                    rec.violation("kde-mode-search-bracket-excludes-peak",
+                                  f"{name}: interval({f:.4f}) = ({a!r}, {b!r}) holds {cb - ca!r}: the search started from a reported mode that is not the peak of the density", ictx)
+                    continue
+                rec.check(ok_mass, "interval-mass",
                           lambda: f"{name}: interval({f:.4f}) = ({a!r}, {b!r}) holds probability {cb - ca!r} under the estimator's own cdf", ictx)
                 # a kernel estimate is bumpy on the scale of its bandwidth, so for a narrow interval around the
                 # top "equal end densities" has several solutions (plateau clause): judged for f >= 0.3 only
